@@ -4,9 +4,9 @@ package main
 // LoadFromSnapshot.
 
 import (
-	"sort"
 	"context"
 	"fmt"
+	"sort"
 	"strings"
 
 	ipfslog "berty.tech/go-ipfs-log"
@@ -88,6 +88,7 @@ func (w *World) execSnapOp(ctx context.Context, toks []string) (bool, error) {
 	case "snapsave":
 		p := atoi(toks[1])
 		res := guarded(func() error { _, err := basestore.SaveSnapshot(ctx, w.stores[p]); return err })
+		w.lastSnapOK = res == "ok"
 		w.printf("snapsaved %d %s queue=%s\n", p, res, w.queueNames(p))
 	case "snapsaverace":
 		// snapsaverace p n : SaveSnapshot while up to n writes by p land, one before each look at the log
@@ -142,6 +143,16 @@ func (w *World) execSnapOp(ctx context.Context, toks []string) (bool, error) {
 		}
 		w.stores[p] = s
 		w.registerStore(s)
+		// pre=N : the store first loads the newest N entries of its log (a user who looked at the latest
+		// entries before asking for everything): the snapshot must still bring what lies below them
+		for _, t := range toks[2:] {
+			// (only when the snapshot that will be loaded is the one just saved: after a save that failed
+			// - an entry too large for it - the older snapshot is loaded and the cache leads further)
+			if strings.HasPrefix(t, "pre=") && w.lastSnapOK {
+				_ = guarded(func() error { return s.Load(ctx, atoi(t[4:])) })
+				w.quiesce(s)
+			}
+		}
 		res := guarded(func() error { return s.LoadFromSnapshot(ctx) })
 		ok := w.quiesce(s)
 		w.flushLoadEnds(p, s)
